@@ -25,6 +25,7 @@ enum K {
     NsDs,
     NsIn,
     NsInDs,
+    NsBA,
 }
 
 fn apply_kind(c: &mut Content, name: &str, k: K, a_id: u8) {
@@ -47,6 +48,7 @@ fn apply_kind(c: &mut Content, name: &str, k: K, a_id: u8) {
             c.add(name, Rd::NsIn);
             c.add(name, Rd::Ds);
         }
+        K::NsBA => c.add(name, Rd::NsBA),
     }
 }
 
@@ -56,10 +58,10 @@ const SLOTS: [&str; 6] = ["a", "b.a", "*.a", "c", "d.c", "*"];
 fn menus(quick: bool) -> Vec<Vec<K>> {
     let _ = quick;
     vec![
-        vec![K::None, K::A, K::Txt, K::ATxt, K::Cname, K::Ns, K::NsDs],
+        vec![K::None, K::A, K::Txt, K::ATxt, K::Cname, K::Ns, K::NsDs, K::NsBA],
         vec![K::None, K::A, K::Txt, K::Cname],
         vec![K::None, K::A, K::Txt, K::Cname],
-        vec![K::None, K::A, K::NsIn, K::NsInDs],
+        vec![K::None, K::A, K::NsIn, K::NsInDs, K::NsBA],
         vec![K::None, K::A],
         vec![K::None, K::A, K::Txt, K::Cname],
     ]
@@ -69,6 +71,14 @@ fn valid(ks: &[K]) -> bool {
     // below a cut at `a` only nothing / glue-like A may exist
     // nothing below the cut at `a` (occluded data is outside the property's zone model)
     if matches!(ks[0], K::Ns | K::NsDs) && (ks[1] != K::None || ks[2] != K::None) {
+        return false;
+    }
+    // below the cut at `c` only the glue of its own in-bailiwick target may exist
+    if ks[3] == K::NsBA && ks[4] != K::None {
+        return false;
+    }
+    // `a` delegated to its own in-bailiwick server b.a: only that glue may exist below
+    if ks[0] == K::NsBA && (!matches!(ks[1], K::None | K::A) || ks[2] != K::None) {
         return false;
     }
     // below the cut at `c` only glue for the in-bailiwick NS target d.c
@@ -209,7 +219,7 @@ fn check_zone(ctx: &Ctx, stats: &Stats, zone: &Zone, c: &Content, hist: &str, pr
             if w != want || dup {
                 let missing = want.difference(&w).count();
                 let extra = w.difference(&want).count();
-                let fam = if prev.is_none() { hist } else if hist.starts_with("updater") { "updater" } else { "write" };
+                let fam = if prev.is_none() { "built" } else if hist.starts_with("updater") { "updater" } else { "write" };
                 ctx.violation(&format!("C08|{fam}|walk|missing={}|extra={}|dup={dup}", missing.min(1), extra.min(1)), &format!("walk() enumerates {} records, content has {} (missing {missing}, extra {extra})", w.len(), want.len()), json!({"zone": case(), "history": hist}));
             }
         }
@@ -271,6 +281,10 @@ fn updater_edit(from: &Content, to: &Content) -> Result<Zone, String> {
 
 /// History W: write interface edit, optionally preceded by an abandoned attempt.
 fn write_edit(from: &Content, to: &Content, abandoned_first: Option<&Content>, via_remove_all: bool) -> Zone {
+    write_edit_opt(from, to, abandoned_first, via_remove_all, false)
+}
+
+fn write_edit_opt(from: &Content, to: &Content, abandoned_first: Option<&Content>, via_remove_all: bool, churn: bool) -> Zone {
     let zone = build_direct(from, false);
     let rt = rt();
     rt.block_on(async {
@@ -305,13 +319,15 @@ fn write_edit(from: &Content, to: &Content, abandoned_first: Option<&Content>, v
                     changed.iter().any(|ch| {
                         let below = n.len() >= ch.len() && n[..ch.len()] == ch[..];
                         let cut_above = ch.len() > n.len() && ch[..n.len()] == n[..] && (from.is_cut(n) || to.is_cut(n));
-                        below || cut_above
+                        // the glue of a cut is part of the cut: rewrite it when a target's addresses change
+                        let glue_of = ns_targets(from, n).contains(ch) || ns_targets(to, n).contains(ch);
+                        below || cut_above || glue_of
                     })
                 })
                 .collect();
             // cuts first? no: parents before children so that nodes exist in path order
             for n in dirty {
-                write_name(apex.as_ref(), to, Some(from), n).await;
+                write_name_opt(apex.as_ref(), to, Some(from), n, churn).await;
             }
         }
         drop(apex);
@@ -337,7 +353,8 @@ fn write_edit2(from2: &Content, from: &Content, to: &Content) -> Zone {
                     changed.iter().any(|ch| {
                         let below = n.len() >= ch.len() && n[..ch.len()] == ch[..];
                         let cut_above = ch.len() > n.len() && ch[..n.len()] == n[..] && (a.is_cut(n) || b.is_cut(n));
-                        below || cut_above
+                        let glue_of = ns_targets(a, n).contains(ch) || ns_targets(b, n).contains(ch);
+                        below || cut_above || glue_of
                     })
                 })
                 .collect();
@@ -488,6 +505,16 @@ fn main() {
                 }
                 Err(p) => {
                     ctx.violation(&format!("C08|write-edit|panic|{}", panic_class(&p)), &p, case2());
+                }
+            }
+            // replaced-then-removed within one version
+            match guard(|| write_edit_opt(&from, &c, None, false, true)) {
+                Ok(z) => {
+                    tr(1);
+                    check_zone(&ctx, &stats, &z, &c, "write-edit-replace-then-remove", Some(&[&from]), &case2)
+                }
+                Err(p) => {
+                    ctx.violation(&format!("C08|write-edit-replace-then-remove|panic|{}", panic_class(&p)), &p, case2());
                 }
             }
             // thorough: two committed batches Z'' -> Z' -> Z through the write interface
